@@ -117,8 +117,78 @@ def apply_mod(fd, q):
         raise AssertionError(q['op'])
 
 
+class _Sentinel:
+    """a truthy, hashable stand-in for order1_only=True that can be recognised
+    when it arrives at the adjacency method"""
+    def __bool__(self):
+        return True
+
+
+def probe():
+    """translator validation: the DECISIONS observed on the running code.
+    dispatch: for every graph function and mode, which adjacency method is
+    reached first and whether the caller's order1_only object arrives there;
+    first_order: number of columns _to_first_order keeps for every type name"""
+    from femio.graph_processor import GraphProcessorMixin as G
+    from femio.fem_elemental_attribute import FEMElementalAttribute
+    mesh = {'nodes': [[i + 1, i, 0, 0] for i in range(10)],
+            'blocks': [['tet2', [[1, list(range(1, 11))]]]]}
+    calls = []
+    sent = _Sentinel()
+    originals = {True: G.calculate_adjacency_matrix_node,
+                 False: G.calculate_adjacency_matrix_element}
+
+    def wrap(nodal):
+        orig = originals[nodal]
+
+        def w(self, *a, **k):
+            o = k.get('order1_only', a[0] if a else False)
+            calls.append([nodal, o is sent])
+            return orig(self, order1_only=bool(o))
+        return w
+    out = {'dispatch': [], 'first_order': {}}
+    G.calculate_adjacency_matrix_node = wrap(True)
+    G.calculate_adjacency_matrix_element = wrap(False)
+    try:
+        for f, kw in [('calculate_adjacency_matrix', {'order1_only': sent}),
+                      ('calculate_laplacian_matrix', {'order1_only': sent}),
+                      ('calculate_edge_gradient_matrix', {'order1_only': sent}),
+                      ('calculate_n_hop_adj', {'order1_only': sent, 'n_hop': 1}),
+                      ('calculate_e2v_matrix', {})]:
+            for mode, nodal in (('nodal', True), ('elemental', False)):
+                del calls[:]
+                fd = build(mesh)
+                try:
+                    getattr(fd, f)(mode=mode, **kw)
+                except Exception:  # noqa  (what happens after the adjacency call is not probed)
+                    pass
+                out['dispatch'].append([f, nodal] + (calls[0] if calls else [None, None]))
+    finally:
+        G.calculate_adjacency_matrix_node = originals[True]
+        G.calculate_adjacency_matrix_element = originals[False]
+    fd = build(mesh)
+    for t in FEMElementalAttribute.ELEMENT_TYPES:
+        try:
+            r = fd.elements._to_first_order(t, np.arange(25).reshape(1, 25))
+            out['first_order'][t] = int(r.shape[1])
+        except ValueError:
+            out['first_order'][t] = 'raise'
+        except Exception as e:  # noqa
+            out['first_order'][t] = 'unavailable: ' + type(e).__name__
+    return out
+
+
 def main():
     spec = json.loads(sys.stdin.read())
+    if spec.get('probe'):
+        with contextlib.redirect_stdout(io.StringIO()):
+            try:
+                res = probe()
+            except Exception as e:  # noqa
+                res = {'unavailable': type(e).__name__ + ': ' + str(e)[:200]}
+        with open(spec['out'], 'w') as f:
+            json.dump(res, f)
+        return
     out = []
     sink = io.StringIO()
     with contextlib.redirect_stdout(sink):
